@@ -1087,8 +1087,12 @@ class C15(NlpCheck):
                 nsteps = d['method']['N'] * M
                 gap = 0.0
                 for st in range(nsteps):
-                    cert = min(fl(a_[0]) for a_ in info["chunks"][0][st])
-                    true = min(sv[st * 16:(st + 1) * 16 + (1 if st == nsteps - 1 else 0)])
+                    coeffs = [fl(a_[0]) for a_ in info["chunks"][0][st]]
+                    cert = min(coeffs)
+                    # the 16 refined samples of a step leave out its end point (the next sample belongs to the next step, and under
+                    # multiple shooting to another state): the first and last Bernstein coefficients ARE the values at the two ends
+                    # (C15.first_coefficient_is_start_value, last_coefficient_is_end_value), so they join the samples — without them the measured gap has an O(h) floor
+                    true = min(sv[st * 16:(st + 1) * 16 + (1 if st == nsteps - 1 else 0)] + [coeffs[0], coeffs[-1]])
                     gap = max(gap, true - cert)
                 gaps.append(gap)
             self.evaluations += 1
